@@ -12,7 +12,7 @@ DIVISORS = [d for d in range(1, 61) if 360 % d == 0]
 RULE = (
     "case = (2-D sample: drawn from a random 2-D model or an arbitrary cloud - rounded values with ties, heavy tails, correlated, n = 50..1e5 -, "
     "alpha log-uniform in [1e-4,0.3], deg_step among ALL 19 divisors of 360 in [1,60]); plus model-drawn samples (n = int(100/alpha)). The monitor on "
-    "DirectSamplingContour._compute infers the normal grid from the polygon and requires every vertex V_k to lie on the two tangent lines it joins, "
+    "supplied samples are float64, int64, int32 or float32 arrays. The monitor on DirectSamplingContour._compute infers the normal grid from the polygon and requires every vertex V_k to lie on the two tangent lines it joins, "
     "|V_k.n(theta) - Q(theta)| small, where Q is bracketed by the adjacent order statistics around (n-1)(1-alpha) (any standard empirical quantile is accepted); "
     "one surplus vertex that repeats its neighbour is tolerated, otherwise exactly 360/deg_step vertices are required; normals advance by exactly deg_step and cover the circle once. "
     "Non-trivial = n >= 50 and 360/deg_step >= 6; distinct = (sample seed, alpha, deg_step)."
@@ -38,6 +38,7 @@ def gen_cases(tier, seed):
                     "alpha": float(10 ** rng.uniform(-4, math.log10(0.3))),
                     "n": int(np.exp(rng.uniform(math.log(50), math.log(1e5 if tier == "thorough" else 3e4)))),
                     "cloud": str(rng.choice(["model", "rounded", "heavy", "gauss-corr", "lattice"])),
+                    "dtype": str(rng.choice(["float64", "float64", "float64", "int64", "int32", "float32"])),
                     "sub": int(rng.integers(1 << 31)),
                 }
             )
@@ -219,6 +220,13 @@ def run_case(case, ctx):
         ctx.cls("cloud", case["cloud"])
         sample = _cloud(case, rng)
         sample = sample[np.all(np.isfinite(sample), axis=1)]
+        # a supplied sample may be stored as integers (counts, binned data) or single precision
+        dt = case.get("dtype", "float64")
+        ctx.cls("sample-dtype", dt)
+        if dt.startswith("int"):
+            sample = np.round(sample * (1.0 if np.ptp(sample) > 30 else 10.0)).astype(dt)
+        elif dt == "float32":
+            sample = sample.astype(np.float32)
         con = DirectSamplingContour(_Dummy2D(), case["alpha"], deg_step=case["deg_step"], sample=sample)
         ctx.check("c03.sample-untouched", con.sample is sample or np.array_equal(con.sample, sample), "the supplied sample was replaced")
         ctx.nontrivial = sample.shape[0] >= 50 and 360 // case["deg_step"] >= 6
